@@ -36,11 +36,20 @@ def test_stmt(t: T.Dict[str, T.Any]) -> str:
     return f"test({q(t['name'])}, sh, {', '.join(kw)})\n"
 
 
-def write_project(root: str, tests: T.Sequence[T.Dict[str, T.Any]]) -> T.Tuple[str, str]:
+def write_project(root: str, tests: T.Sequence[T.Dict[str, T.Any]], setups: T.Sequence[T.Dict[str, T.Any]] = ()) -> T.Tuple[str, str]:
     sd = os.path.join(root, 'src')
     bd = os.path.join(root, 'bd')
     os.makedirs(sd)
     top = [f"project({q(TOP)}, meson_version: '>=1.0.0')\n", "sh = find_program('sh')\n"]
+    for su in setups:
+        kw = []
+        if su.get('tmult') is not None:
+            kw.append(f"timeout_multiplier: {su['tmult']}")
+        if su.get('exclude_suites'):
+            kw.append('exclude_suites: [' + ', '.join(q(x) for x in su['exclude_suites']) + ']')
+        if su.get('env'):
+            kw.append('env: [' + ', '.join(q(x) for x in su['env']) + ']')
+        top.append(f"add_test_setup({q(su['name'])}{''.join(', ' + x for x in kw)})\n")
     sub = [f"project({q(SUB)})\n", "sh = find_program('sh')\n"]
     have_sub = False
     subproject_emitted = False
@@ -76,13 +85,15 @@ def list_tests(root: str, bd: str, sel_args: T.List[str], tag: str) -> T.Dict[st
 
 
 def sim_run(root: str, bd: str, argv: T.List[str], simparams: T.Dict[str, T.Any],
-            scripts: T.Dict[str, T.Any], tag: str, timeout: float = 120.0) -> T.Dict[str, T.Any]:
-    return forkrun(run_mtest, bd, argv, simparams, scripts, capture=os.path.join(root, f'run-{tag}.log'),
+            scripts: T.Dict[str, T.Any], tag: str, timeout: float = 120.0, logbase: str = 'testlog') -> T.Dict[str, T.Any]:
+    return forkrun(run_mtest, bd, argv, simparams, scripts, logbase, capture=os.path.join(root, f'run-{tag}.log'),
                    timeout=timeout, env=M.clean_env())
 
 
 def selection_args(run: T.Dict[str, T.Any]) -> T.List[str]:
     a: T.List[str] = []
+    if run.get('setup'):
+        a += ['--setup', f"{TOP}:{run['setup']}"]
     for s in run.get('suites') or []:
         a += ['--suite', s]
     for s in run.get('nosuites') or []:
